@@ -55,7 +55,7 @@ class ScalarID:
         """
         # pylint: disable=no-self-use
         return (
-            ast.value
+            str(ast.value)
             if isinstance(ast, (StringValueNode, IntValueNode))
             else UNDEFINED_VALUE
         )
